@@ -159,6 +159,11 @@ def reindex_rules(run: Run, model: PyModel, rids: dict[str, str]) -> None:
             n += 1
             acked = [t for t in trace if t[0] == "json_dump" and t[1] == W6.hash_path and isinstance(t[2], dict) and t[2].get("A.zo") == "hA2"]
             walked = [t[1] for t in trace if t[0] == "walk"]
+            removed = [t[1] for t in trace if t[0] == "remove"]
+            if "order" in rids or "recover" in rids:
+                run.check(rids.get("order", rids.get("recover")), "a page given on the command line is removed and re-added under its own key", removed == ["B.zo"], "reindex_database", f"`db reindex B.zo`: removed {removed}",
+                          f"`db reindex /Z/B.zo` (notes directory reached through a symlink) removes {removed} from the index instead of 'B.zo': the page is added a second time under another key and every note of it is duplicated",
+                          file=FILE_H, node=fq.node)
             run.check(rids["ack"], "a reindex restricted to some pages does not acknowledge the others", not acked and walked == ["B.zo"], "reindex_database", f"`db reindex B.zo`: compiled {walked}, A.zo acknowledged={bool(acked)}",
                       f"`db reindex B.zo` with A.zo also edited: compiled {walked}; file_hash.json afterwards records A.zo's NEW hash although A.zo was never re-read: its edit is missed by every later reindex",
                       file=FILE_H, node=fq.node)
@@ -191,6 +196,8 @@ def writeback_rules(run: Run, model: PyModel, rid: str) -> None:
         if isinstance(v, Raised) or imprecise:
             run.undecided(rid, "add_zids_to_notes_in_file", (f"raises {v.exc}" if isinstance(v, Raised) else "; ".join(imprecise[:2])))
             continue
+        run.check(rid, "the write-back does not depend on the content of file_hash.json", not [t for t in trace if t[0] == "read" and t[1] == W.hash_path], "write-back", "reads file_hash.json",
+                  "the write-back reads file_hash.json: a torn (truncated) hash map then makes every re-run fail with a JSON error instead of being overwritten", file=FILE_H, node=fq.node)
         wr = [i for i, t in enumerate(trace) if t[0] == "write_text" and t[1] == "/Z/A.zo"]
         dumps = [i for i, t in enumerate(trace) if t[0] == "json_dump" and t[1] == W.hash_path]
         run.check(rid, "the write-back writes the page and then refreshes its hash", bool(wr) and bool(dumps) and wr[0] < dumps[-1] and isinstance(trace[dumps[-1]][2], dict) and trace[dumps[-1]][2].get("A.zo") == "hA3",
@@ -214,6 +221,7 @@ def create_rules(run: Run, model: PyModel, rid: str) -> None:
     fq = model.func(f"{H}.create_database")
     n = 0
     for errors, wl, upd, want_refuse, label in ((set(), [""], False, False, "clean pages"), ({"B.zo"}, [""], False, True, "newly broken page"),
+                                                 ({"B.zo"}, ["archive/B.zo", "myB.zo"], False, True, "newly broken page whose name is part of a whitelisted name"),
                                                  ({"B.zo"}, ["B.zo"], False, False, "whitelisted broken page"), ({"B.zo"}, [""], True, False, "broken page with --update-error-file-whitelist")):
         files = {"A.zo": "hA", "B.zo": "hB", "C.zo": "hC"}
         W = World(model, files=files, old_map=None, indexed=set(), errors=errors, whitelist=wl)
@@ -221,6 +229,9 @@ def create_rules(run: Run, model: PyModel, rid: str) -> None:
             n += 1
             refused = isinstance(v, Raised) and v.exc == "RuntimeError"
             ok = refused == want_refuse and (refused or not isinstance(v, Raised))
+            reads = [t for t in trace if t[0] == "read" and t[1] == W.hash_path]
+            run.check(rid, f"create_database does not depend on the content of file_hash.json [{label}]", not reads, "create_database", "reads file_hash.json",
+                      "`db create` reads file_hash.json: it used to only overwrite it, which is why it survives a torn (truncated) hash map", file=FILE_H, node=fq.node)
             run.check(rid, f"create_database: {label} -> {'refused' if want_refuse else 'indexed'}", ok, "create_database", f"{label}: {v.exc if isinstance(v, Raised) else 'completes'}",
                       f"with a {label} create_database {'raises ' + v.exc if isinstance(v, Raised) else 'completes'}; expected {'a refusal (RuntimeError)' if want_refuse else 'the pages to be indexed'}"
                       + (": a newly broken page is indexed silently" if want_refuse else ""), file=FILE_H, node=fq.node)
@@ -240,4 +251,4 @@ def create_rules(run: Run, model: PyModel, rid: str) -> None:
                           file=FILE_H, node=fq.node)
             if imprecise:
                 run.undecided(rid, "create_database", f"{label}: " + "; ".join(imprecise[:2]))
-    run.floor("abstract runs of create_database", n, 4)
+    run.floor("abstract runs of create_database", n, 5)
